@@ -132,7 +132,8 @@ def typeTable : List Shape :=
    N, T2, .unitStruct, E, .option E, .seq E, .map (.seq T2), .option .unit,
    .tuple [.int true 32], .seq (.tuple [.string, .bool]),
    .struct [("e", E), ("n", N), ("u", .unitStruct), ("o", .option P)],
-   F, .seq F]
+   F, .seq F,
+   .map (.int true 32)]      -- 35: BTreeMap<UserId, i32> with `struct UserId(String)`: a newtype key is transparent
 
 mutual
 def dbg : TVal → List String
